@@ -163,15 +163,25 @@ impl InferShapes for Range {
                     SymTensor::from_shape(vec![sym_gen.gen_positive()])
                 }
             }
-            // Range(0, limit, 1) has shape [limit]
+            // Range(0, limit, 1) has shape [limit], unless `limit` may be
+            // negative: an empty range has length 0.
             (Some(SymExpr::Value(0)), Some(limit), Some(SymExpr::Value(1))) => {
-                SymTensor::from_shape(vec![limit])
+                if limit.is_positive() {
+                    SymTensor::from_shape(vec![limit])
+                } else {
+                    SymTensor::from_shape(vec![sym_gen.gen_positive()])
+                }
             }
-            // Range(start, start + limit, 1) has shape [limit]
+            // Range(start, start + limit, 1) has shape [limit], with the same
+            // proviso.
             (Some(start), Some(SymExpr::Add(limit_lhs, limit_rhs)), Some(SymExpr::Value(1)))
                 if start == *limit_lhs =>
             {
-                SymTensor::from_shape(vec![(*limit_rhs).clone()])
+                if limit_rhs.is_positive() {
+                    SymTensor::from_shape(vec![(*limit_rhs).clone()])
+                } else {
+                    SymTensor::from_shape(vec![sym_gen.gen_positive()])
+                }
             }
             // Range(start, limit, 1) has shape [limit - start]
             (Some(start), Some(limit), Some(SymExpr::Value(1))) => {
